@@ -1,17 +1,47 @@
 package main
 
 import (
+	"embed"
 	"encoding/json"
 	"fmt"
 	"os"
+	"regexp"
 	"sort"
 	"strings"
 )
+
+// the rule files themselves, so that the manifest lists every clause a check decides and cannot fall behind the code
+//
+//go:embed prop_c*.go
+var propSources embed.FS
+
+var ruleDeclRE = regexp.MustCompile(`(?:r\.Rule|shareRule)\((?:w, r, )?"(C[0-9]{2})\.([a-z0-9'-]+)"`)
+
+// declaredRules: property id -> ids of the rules registered in the rule files (r.Rule / shareRule), in source order.
+func declaredRules() map[string][]string {
+	out := map[string][]string{}
+	seen := map[string]bool{}
+	ents, _ := propSources.ReadDir(".")
+	for _, e := range ents {
+		b, err := propSources.ReadFile(e.Name())
+		if err != nil {
+			continue
+		}
+		for _, m := range ruleDeclRE.FindAllStringSubmatch(string(b), -1) {
+			if k := m[1] + "." + m[2]; !seen[k] {
+				seen[k] = true
+				out[m[1]] = append(out[m[1]], m[2])
+			}
+		}
+	}
+	return out
+}
 
 // reasons for properties not (yet) claimed; must stay current with the registry.
 var notApplicable = map[string]string{}
 
 func writeManifest() {
+	declared := declaredRules()
 	var ids []string
 	for id := range props {
 		ids = append(ids, id)
@@ -27,6 +57,9 @@ func writeManifest() {
 		lt := p.levelText
 		if lt == "" {
 			lt = "Decides structural necessary conditions of the property on every path/caller of the current source (not the behaviour itself): " + strings.Join(p.decided, "; ")
+			if all := declared[id]; len(all) > 0 {
+				lt += fmt.Sprintf(". All %d rules of the check (statement of each in the evidence file): ", len(all)) + strings.Join(all, ", ")
+			}
 		}
 		ln := p.levelNote
 		if ln == "" {
